@@ -407,16 +407,15 @@ Proof.
 Qed.
 End GmresModelMinRes.
 
-(* FULL STATEMENT (unproved part).  For one restart cycle of Krylov.gm_cycle started at x with
-   r0 = (P)(f - A x), beta = norm_b r0 <> 0, under the hypotheses of the section above:
+(* The last link -- for one restart cycle of Krylov.gm_cycle started at x with r0 = (P)(f - A x), beta = norm_b r0 <> 0:
      the vector sv = backsub (g_H w) (rev (seq 0 j)) (g_s w) computed by the code satisfies the triangular system of
      C05_gmres_model_residual_attained (the stored g_H(i,c), i <= c, are the entries (Q hbar_c)_i), and
      k_lin_comb (cv_of sv (g_v w) j) forms sum_c sv_c v_c, so that the true (preconditioned) residual norm of the x
-     returned with maxiter = j is |s_j|, the minimum over x + (P) span(v_0..v_{j-1}), and is non-increasing in j.
-   Proved: the lower bound and its attainment by every solution of the triangular system (on the model), all
-   per-iteration facts, and the monotonicity of |s_j|.  Not proved: correctness of backsub / k_lin_comb (that the
-   code's y is such a solution) and the identification of the outer-loop residual with beta v_0.
-   Tested on the implementation: tools/props/C05.py (Petrov-Galerkin oracle, monotone returned residual, reference). *)
+     returned with maxiter = j is |s_j|, the minimum over x + (P) span(v_0..v_{j-1}), and is non-increasing in j --
+   is PROVED at the end of this file (section "C05-A2, last link": C05_gmres_returns_residual_minimiser,
+   C05_gmres_residual_nonincreasing_in_k, C05_gmres_outer_loop_enters_cycle_with_residual, ...; proofs in
+   KrylovMath2Gmres.v).  Lucky breakdown (H(j+1,j) = 0, exact solution reached) is excluded by hypothesis.
+   Also tested on the implementation: tools/props/C05.py (Petrov-Galerkin oracle, monotone returned residual, reference). *)
 
 (* ---- closed instances at the exact rationals ---- *)
 Theorem C05_cg_minimises_A_norm_error_over_krylov_space_Qc n (A P : vec QcS -> vec QcS) f x0 xs prm junk nr r w :
@@ -573,3 +572,230 @@ Example C05_gmres_model_minimal_residual_example : forall y : nat -> QcS,
   ole (g_s (W AG Pid false wG 1) 1 * g_s (W AG Pid false wG 1) 1) (rdot r r) /\
   g_s (W AG Pid false wG 1) 1 * g_s (W AG Pid false wG 1) 1 = qc 16 25.
 Proof. exact gmres_model_minres_example. Qed.
+
+(* =====================================================================================
+   C05-A2, last link (KrylovMath2Gmres.v): the x RETURNED by one restart cycle of gmres.hpp is the residual
+   minimiser.  (a) backsub solves the triangular system; (b) lin_comb assembles sum_c sv_c v_c; (c) the
+   stored entries H(i,c), i <= c, are the rotated Hessenberg columns and the diagonal is non-zero without
+   breakdown; (d) Krylov.gm_cycle; (e) maxiter = k versus k + 1; (f) the outer loop and gmres itself.
+   ===================================================================================== *)
+From Amgcl Require Import KrylovMath2Gmres KrylovMath2Qc.
+
+(* (a) for (i = j; i --> 0;) { s[i] /= H(i,i); for (k < i) s[k] -= H(k,i) * s[i]; } solves U y = s for the upper
+   triangle U of H (entries below the diagonal are not read), leaving s[l], l >= j, alone *)
+Theorem C05_gmres_backsub_solves_triangular_system (S : Scalar) (Sft : Sfield S) (H : nat -> nat -> S) m (t : nat -> S) :
+  (forall i, i < m -> H i i <> s0) ->
+  (forall l, m <= l -> backsub H (rev (seq 0 m)) t l = t l) /\
+  (forall i, i < m -> sumn (fun c => backsub H (rev (seq 0 m)) t c * utri H i c) m = t i).
+Proof. exact (backsub_solves Sft H m t). Qed.
+Print Assumptions C05_gmres_backsub_solves_triangular_system.
+
+(* (b) backend::lin_comb(j, s, v, 0, y) = sum_{c<j} s_c v_c, whatever y held before (j > 0) *)
+Theorem C05_gmres_lin_comb_assembles_combination (S : Scalar) (Sft : Sfield S) (Seqb : seqb_spec S) n
+  (s : nat -> S) (v : nat -> vec S) j (y : vec S) :
+  0 < j -> (forall l, l < j -> length (v l) = n) ->
+  k_lin_comb (cv_of s v j) s0 y = comb n v s j.
+Proof. exact (k_lin_comb_comb Sft Seqb n s v j y). Qed.
+Print Assumptions C05_gmres_lin_comb_assembles_combination.
+
+Section GmresReturned.
+Variable S : Scalar.
+Hypothesis Sft : Sfield S.
+Hypothesis Seqb : seqb_spec S.
+Hypothesis Sreal : forall x : S, sadj x = x.
+Hypothesis HofQ0 : sofQ (0 # 1)%Q = @s0 S.
+Hypothesis HofQ1 : sofQ (1 # 1)%Q = @s1 S.
+Hypothesis Ord : ordered S.
+Variable n : nat.
+Variables A P : vec S -> vec S.
+
+(* (c) after j passes from w0 (no breakdown, unit rotations, dx <> 0 in the third Givens branch) the y computed by
+   backsub from the workspace's H and s solves the triangular system of C05_gmres_model_residual_attained *)
+Theorem C05_gmres_backsub_solves_model_system left (w0 : @gm_ws S) j :
+  length (g_v w0 0) = n ->
+  (forall i, i < j ->
+     let dx := tail_H3 (Wb A P left w0 i) i (Kv A P left w0 i) i i in
+     let dy := tail_H3 (Wb A P left w0 i) i (Kv A P left w0 i) (Datatypes.S i) i in
+     is_zero dy = false -> sltb (sabs dx) (sabs dy) = false -> dx <> s0) ->
+  (forall i, i < j -> arn_h (W A P left w0 i) i (Kv A P left w0 i) <> s0) ->
+  (forall i, i < j -> unit_rot (g_cs (W A P left w0 (Datatypes.S i)) i) (g_sn (W A P left w0 (Datatypes.S i)) i)) ->
+  let sv := backsub (g_H (W A P left w0 j)) (rev (seq 0 j)) (g_s (W A P left w0 j)) in
+  (forall i, i < j ->
+     sumn (fun c => sv c * Qn (g_cs (W A P left w0 j)) (g_sn (W A P left w0 j)) j (hbar A P left w0 c) i) j
+     = g_s (W A P left w0 j) i) /\
+  sv j = g_s (W A P left w0 j) j.
+Proof.
+  exact (fun Lv0 Hd Hh Hu => backsub_solves_model Sft Seqb Sreal HofQ0 HofQ1 n A P left w0 Lv0 j Hd Ord Hh Hu).
+Qed.
+
+(* (f1) the outer loop of gmres.hpp enters the cycle with the workspace gm_w0, whose r is the (preconditioned)
+   residual (P)(f - A x) of the current iterate: this is the vector beta v_0 of the minimal-residual theorems *)
+Theorem C05_gmres_outer_loop_enters_cycle_with_residual prm f eps nr k x (w : @gm_ws S) it oof :
+  gm_outer A P prm f eps nr (Datatypes.S k) x w it oof =
+  (let w0 := gm_w0 A P prm f x w in
+   let norm_r := norm_b (g_r w0) in
+   if sltb norm_r eps || Nat.leb (p_maxiter prm) it then (mkRes it (norm_r / nr) x oof, w0)
+   else let '(x', r) := gm_cycle A P prm eps norm_r x w0 it in
+        gm_outer A P prm f eps nr k x' (n_ws r) (n_it r) (oof || n_oof r)) /\
+  g_r (gm_w0 A P prm f x w) = pres A P (p_left prm) f x.
+Proof. exact (conj (gm_outer_step A P prm f eps nr k x w it oof) (gm_w0_residual A P prm f x w)). Qed.
+
+(* (f2) when the iteration limit is reached inside the first restart cycle, gmres returns the iterate of that cycle *)
+Theorem C05_gmres_returns_first_cycle_iterate prm f x0 (junk : @gm_ws S) nr :
+  k_prologue norm_b prm f = Go nr ->
+  let eps := smax (p_tol prm * nr) (p_abstol prm) in
+  let w0 := gm_w0 A P prm f x0 junk in
+  let norm_r := norm_b (g_r w0) in
+  let cyc := gm_cycle A P prm eps norm_r x0 w0 0 in
+  sltb norm_r eps = false -> 0 < p_maxiter prm -> p_maxiter prm <= n_it (snd cyc) ->
+  exists r w, gmres A P prm f x0 junk = (KOk r, w) /\ k_x r = fst cyc /\ k_it r = n_it (snd cyc).
+Proof. exact (gmres_first_cycle A P prm f x0 junk nr). Qed.
+
+Hypothesis A_len : forall v, length v = n -> length (A v) = n.
+Hypothesis P_len : forall v, length v = n -> length (P v) = n.
+Hypothesis A_lin : linear_on n A.
+Hypothesis P_lin : linear_on n P.
+Variable prm : @kprm S.
+Variables (f x : vec S) (w : @gm_ws S) (eps norm_r : S) (it : nat).
+Hypothesis Lf : length f = n.
+Hypothesis Lx : length x = n.
+(* the cycle is entered with r = (P)(f - A x) (C05_gmres_outer_loop_enters_cycle_with_residual), norm_r = ||r||
+   with an exact root, and the residual is not zero *)
+Hypothesis Hr : g_r w = pres A P (p_left prm) f x.
+Hypothesis Nx : norm_r * norm_r = rdot (g_r w) (g_r w).
+Hypothesis Nn : norm_r <> s0.
+
+(* (d) THE THEOREM.  j = number of inner iterations the cycle makes (1 <= j <= M by gm_inner); run hypotheses for
+   i < j as in C05_gmres_model_residual_attained, on the workspace gm_w1 the inner loop starts from.  Then the x'
+   returned by Krylov.gm_cycle lies in x + (P) span(v_0..v_{j-1}), the square of its (preconditioned) residual norm
+   is s_j^2 (s = the array s of the returned workspace, whose entry j is the estimate the inner loop tested), and
+   NO element of x + (P) span(v_0..v_{j-1}) has a smaller residual. *)
+Theorem C05_gmres_returns_residual_minimiser :
+  let left := p_left prm in
+  let w1 := gm_w1 norm_r w in
+  let jj := n_j (gm_run A P prm eps norm_r w it) in
+  (forall i, i < jj -> arn_h (W A P left w1 i) i (Kv A P left w1 i) <> s0) ->
+  (forall i, i < jj ->
+     arn_h (W A P left w1 i) i (Kv A P left w1 i) * arn_h (W A P left w1 i) i (Kv A P left w1 i) =
+     rdot (arn_w (W A P left w1 i) i (Kv A P left w1 i)) (arn_w (W A P left w1 i) i (Kv A P left w1 i))) ->
+  (forall i, i < jj -> unit_rot (g_cs (W A P left w1 (Datatypes.S i)) i) (g_sn (W A P left w1 (Datatypes.S i)) i)) ->
+  (forall i, i < jj ->
+     let dx := tail_H3 (Wb A P left w1 i) i (Kv A P left w1 i) i i in
+     let dy := tail_H3 (Wb A P left w1 i) i (Kv A P left w1 i) (Datatypes.S i) i in
+     is_zero dy = false -> sltb (sabs dx) (sabs dy) = false -> dx <> s0) ->
+  let res := gm_cycle A P prm eps norm_r x w it in
+  let x' := fst res in
+  let j := n_j (snd res) in
+  let s := g_s (n_ws (snd res)) in
+  j = jj /\ 0 < j /\
+  x' = vadd x (Pr P left (comb n (V A P left w1 jj) s j)) /\
+  rdot (pres A P left f x') (pres A P left f x') = s j * s j /\
+  forall y : nat -> S,
+    ole (rdot (pres A P left f x') (pres A P left f x'))
+        (rdot (pres A P left f (vadd x (Pr P left (comb n (V A P left w1 jj) y j))))
+              (pres A P left f (vadd x (Pr P left (comb n (V A P left w1 jj) y j))))).
+Proof.
+  exact (gm_cycle_returns_minimiser Sft Seqb Sreal HofQ0 HofQ1 Ord n A P A_len P_len A_lin P_lin prm f x w eps norm_r it
+           Lf Lx Hr Nx Nn).
+Qed.
+
+(* (e) within a cycle: the residual of the iterate returned with maxiter = k + 1 is not larger than the one
+   returned with maxiter = k (all other parameters equal; run hypotheses for the longer run) *)
+Theorem C05_gmres_residual_nonincreasing_in_k :
+  let left := p_left prm in
+  let prm' := with_maxiter prm (Datatypes.S (p_maxiter prm)) in
+  let w1 := gm_w1 norm_r w in
+  let j1 := n_j (gm_run A P prm' eps norm_r w it) in
+  (forall i, i < j1 -> arn_h (W A P left w1 i) i (Kv A P left w1 i) <> s0) ->
+  (forall i, i < j1 ->
+     arn_h (W A P left w1 i) i (Kv A P left w1 i) * arn_h (W A P left w1 i) i (Kv A P left w1 i) =
+     rdot (arn_w (W A P left w1 i) i (Kv A P left w1 i)) (arn_w (W A P left w1 i) i (Kv A P left w1 i))) ->
+  (forall i, i < j1 -> unit_rot (g_cs (W A P left w1 (Datatypes.S i)) i) (g_sn (W A P left w1 (Datatypes.S i)) i)) ->
+  (forall i, i < j1 ->
+     let dx := tail_H3 (Wb A P left w1 i) i (Kv A P left w1 i) i i in
+     let dy := tail_H3 (Wb A P left w1 i) i (Kv A P left w1 i) (Datatypes.S i) i in
+     is_zero dy = false -> sltb (sabs dx) (sabs dy) = false -> dx <> s0) ->
+  let xk := fst (gm_cycle A P prm eps norm_r x w it) in
+  let xk1 := fst (gm_cycle A P prm' eps norm_r x w it) in
+  ole (rdot (pres A P left f xk1) (pres A P left f xk1)) (rdot (pres A P left f xk) (pres A P left f xk)).
+Proof.
+  exact (gm_cycle_residual_nonincreasing_in_maxiter Sft Seqb Sreal HofQ0 HofQ1 Ord n A P A_len P_len A_lin P_lin
+           prm f x w eps norm_r it Lf Lx Hr Nx Nn).
+Qed.
+End GmresReturned.
+Print Assumptions C05_gmres_backsub_solves_model_system.
+Print Assumptions C05_gmres_outer_loop_enters_cycle_with_residual.
+Print Assumptions C05_gmres_returns_first_cycle_iterate.
+Print Assumptions C05_gmres_returns_residual_minimiser.
+Print Assumptions C05_gmres_residual_nonincreasing_in_k.
+
+(* closed instance at the exact rationals *)
+Theorem C05_gmres_returns_residual_minimiser_Qc n (A P : vec QcS -> vec QcS) prm f x (w : @gm_ws QcS) eps norm_r it :
+  (forall v, length v = n -> length (A v) = n) -> (forall v, length v = n -> length (P v) = n) ->
+  linear_on n A -> linear_on n P -> length f = n -> length x = n ->
+  g_r w = pres A P (p_left prm) f x -> norm_r * norm_r = rdot (g_r w) (g_r w) -> norm_r <> s0 ->
+  let left := p_left prm in
+  let w1 := gm_w1 norm_r w in
+  let jj := n_j (gm_run A P prm eps norm_r w it) in
+  (forall i, i < jj -> arn_h (W A P left w1 i) i (Kv A P left w1 i) <> s0) ->
+  (forall i, i < jj ->
+     arn_h (W A P left w1 i) i (Kv A P left w1 i) * arn_h (W A P left w1 i) i (Kv A P left w1 i) =
+     rdot (arn_w (W A P left w1 i) i (Kv A P left w1 i)) (arn_w (W A P left w1 i) i (Kv A P left w1 i))) ->
+  (forall i, i < jj -> unit_rot (g_cs (W A P left w1 (Datatypes.S i)) i) (g_sn (W A P left w1 (Datatypes.S i)) i)) ->
+  (forall i, i < jj ->
+     let dx := tail_H3 (Wb A P left w1 i) i (Kv A P left w1 i) i i in
+     let dy := tail_H3 (Wb A P left w1 i) i (Kv A P left w1 i) (Datatypes.S i) i in
+     is_zero dy = false -> sltb (sabs dx) (sabs dy) = false -> dx <> s0) ->
+  let res := gm_cycle A P prm eps norm_r x w it in
+  let x' := fst res in
+  let j := n_j (snd res) in
+  let s := g_s (n_ws (snd res)) in
+  j = jj /\ 0 < j /\
+  x' = vadd x (Pr P left (comb n (V A P left w1 jj) s j)) /\
+  rdot (pres A P left f x') (pres A P left f x') = s j * s j /\
+  forall y : nat -> QcS,
+    ole (rdot (pres A P left f x') (pres A P left f x'))
+        (rdot (pres A P left f (vadd x (Pr P left (comb n (V A P left w1 jj) y j))))
+              (pres A P left f (vadd x (Pr P left (comb n (V A P left w1 jj) y j))))).
+Proof.
+  exact (fun HA HP LA LP Lf Lx Hr Nx Nn =>
+    C05_gmres_returns_residual_minimiser QcS QcS_field QcS_eqb QcS_real QcS_ofQ0 QcS_ofQ1 QcS_ordered' n A P HA HP LA LP
+      prm f x w eps norm_r it Lf Lx Hr Nx Nn).
+Qed.
+Print Assumptions C05_gmres_returns_residual_minimiser_Qc.
+
+(* every hypothesis is satisfiable: two inner iterations on a 3x3 Hessenberg system, exact roots, no breakdown;
+   squared residuals 16/25 (maxiter = 1) and 256/625 (maxiter = 2); gmres returns that iterate *)
+Example C05_gmres_returned_minimiser_hypotheses_satisfiable :
+  length fG = 3 /\ length xG = 3 /\
+  g_r w0G = pres AH Pid (p_left (prmG 2)) fG xG /\
+  nrG * nrG = rdot (g_r w0G) (g_r w0G) /\ nrG <> s0 /\
+  n_j (gm_run AH Pid (prmG 2) epsG nrG w0G 0) = 2 /\ n_j (gm_run AH Pid (prmG 1) epsG nrG w0G 0) = 1 /\
+  (forall i, i < 2 -> arn_h (W AH Pid false (gm_w1 nrG w0G) i) i (Kv AH Pid false (gm_w1 nrG w0G) i) <> s0) /\
+  (forall i, i < 2 ->
+     arn_h (W AH Pid false (gm_w1 nrG w0G) i) i (Kv AH Pid false (gm_w1 nrG w0G) i) *
+     arn_h (W AH Pid false (gm_w1 nrG w0G) i) i (Kv AH Pid false (gm_w1 nrG w0G) i) =
+     rdot (arn_w (W AH Pid false (gm_w1 nrG w0G) i) i (Kv AH Pid false (gm_w1 nrG w0G) i))
+          (arn_w (W AH Pid false (gm_w1 nrG w0G) i) i (Kv AH Pid false (gm_w1 nrG w0G) i))) /\
+  (forall i, i < 2 -> unit_rot (g_cs (W AH Pid false (gm_w1 nrG w0G) (Datatypes.S i)) i)
+                               (g_sn (W AH Pid false (gm_w1 nrG w0G) (Datatypes.S i)) i)) /\
+  (forall i, i < 2 ->
+     let dx := tail_H3 (Wb AH Pid false (gm_w1 nrG w0G) i) i (Kv AH Pid false (gm_w1 nrG w0G) i) i i in
+     let dy := tail_H3 (Wb AH Pid false (gm_w1 nrG w0G) i) i (Kv AH Pid false (gm_w1 nrG w0G) i) (Datatypes.S i) i in
+     is_zero dy = false -> sltb (sabs dx) (sabs dy) = false -> dx <> s0).
+Proof. exact gmres_cycle_hypotheses_satisfiable. Qed.
+Example C05_gmres_returned_minimiser_example :
+  let x2 := fst (gm_cycle AH Pid (prmG 2) epsG nrG xG w0G 0) in
+  let x1 := fst (gm_cycle AH Pid (prmG 1) epsG nrG xG w0G 0) in
+  rdot (pres AH Pid false fG x2) (pres AH Pid false fG x2) = qc 256 625 /\
+  rdot (pres AH Pid false fG x1) (pres AH Pid false fG x1) = qc 16 25 /\
+  (forall y : nat -> QcS,
+     let z := vadd xG (Pr Pid false (comb 3 (V AH Pid false (gm_w1 nrG w0G) 2) y 2)) in
+     ole (qc 256 625) (rdot (pres AH Pid false fG z) (pres AH Pid false fG z))) /\
+  (exists r w, gmres AH Pid (prmG 2) fG xG junkG = (KOk r, w) /\ k_x r = x2 /\ k_it r = 2).
+Proof. exact gmres_cycle_example. Qed.
+Example C05_gmres_residual_nonincreasing_in_k_example :
+  let x2 := fst (gm_cycle AH Pid (with_maxiter (prmG 1) 2) epsG nrG xG w0G 0) in
+  let x1 := fst (gm_cycle AH Pid (prmG 1) epsG nrG xG w0G 0) in
+  ole (rdot (pres AH Pid false fG x2) (pres AH Pid false fG x2)) (rdot (pres AH Pid false fG x1) (pres AH Pid false fG x1)).
+Proof. exact gmres_maxiter_monotone_example. Qed.
